@@ -206,6 +206,26 @@ def sampling(tier, rng, rep):
                     if np.linalg.matrix_rank(np.vstack([un(a), un(s)]), tol=1e-6) != k1 or np.linalg.matrix_rank(np.vstack([un(b), un(s)]), tol=1e-6) != k2:
                         rep.fail("intersect_in_both", f"result rows not in both subspaces at index {idx}", inp)
                 rep.case(key=("int", t, mode, len(Bm)), sample=inp if t == 0 else None)
+            # one SINGLE subspace against a composite of subspaces (of another dimension in general), pairwise (elementwise refuses operands of different rank loudly)
+            for side in ("single_first", "single_second"):
+                for mode in ("pairwise",):
+                    a_s, b_s = (A[0], B) if side == "single_first" else (A, B[0])
+                    inp = {"n": n, "k1": k1, "k2": k2, "mode": mode, "operands": side, "A_re": np.real(a_s).tolist(), "A_im": np.imag(a_s).tolist(), "B_re": np.real(b_s).tolist(), "B_im": np.imag(b_s).tolist()}
+                    S = rep.attempt("intersect_runs", inp, lambda: pr.Subspace(a_s.copy()).intersect(pr.Subspace(b_s.copy()), broadcast=mode).proj_data)
+                    if S is None:
+                        continue
+                    d = k1 + k2 - (n + 1)
+                    S = np.asarray(S)
+                    if S.shape[-2:] != (d, n + 1) or int(np.prod(S.shape[:-2])) != 3:
+                        rep.fail("intersect_shape", f"{side}, {mode}: result of shape {S.shape} for one subspace against three (expected three intersections of {d} spanning vectors)", inp); continue
+                    Sf = S.reshape((3, d, n + 1))
+                    un = lambda m_: m_ / np.linalg.norm(m_, axis=-1, keepdims=True)
+                    for i3 in range(3):
+                        a_ = A[0] if side == "single_first" else A[i3]
+                        b_ = B[i3] if side == "single_first" else B[0]
+                        if np.linalg.matrix_rank(un(Sf[i3]), tol=1e-8) != d or np.linalg.matrix_rank(np.vstack([un(a_), un(Sf[i3])]), tol=1e-6) != k1 or np.linalg.matrix_rank(np.vstack([un(b_), un(Sf[i3])]), tol=1e-6) != k2:
+                            rep.fail("intersect_in_both", f"{side}, {mode}: intersection {i3}", inp); break
+                    rep.case(key=("int1", t, side, mode))
         # --- eigenvector / diagonalize
         cplx = bool(t % 2)
         M = rng.normal(size=(n + 1, n + 1)) + (1j * rng.normal(size=(n + 1, n + 1)) if cplx else 0)
